@@ -240,7 +240,10 @@ func init() {
 	}, nil)
 	bfsCheck("C07", "netmap-candidates", func() Driver { return NewTickDriver("C07") }, 12, 12, 120, 1000, nil)
 	bfsCheck("C10", "nns-lifecycle", func() Driver { return NewNNSDriver("C10") }, 5, 7, 120, 1000, nil)
-	bfsCheck("C11", "nns-auth", func() Driver { return NewNNSDriver("C11") }, 3, 5, 120, 1000, nil)
+	multiBfsCheck("C11", []part{
+		{"nns-auth", func() Driver { return NewNNSDriver("C11") }, 3, 5, 120, 1000},
+		{"nns-auth-even-committee", func() Driver { d := NewNNSDriver("C11even"); d.N = 4; return d }, 3, 4, 30, 100},
+	}, nil)
 	multiBfsCheck("C12", []part{
 		{"nns-records", func() Driver { return NewNNSDriver("C12r") }, 3, 5, 80, 600},
 		{"nns-midlevel-expiry", func() Driver { return NewNNSDriver("C12m") }, 4, 6, 40, 300},
